@@ -76,7 +76,12 @@ pub fn install_panic_hook() {
             "<non-string panic>".to_string()
         };
         let loc = info.location().map(|l| format!("{}:{}", l.file(), l.line())).unwrap_or_default();
-        LAST_PANIC.with(|p| *p.borrow_mut() = format!("{msg} @ {loc}"));
+        // (try_with: the hook may run while the thread's local values are being destroyed)
+        let _ = LAST_PANIC.try_with(|p| {
+            if let Ok(mut p) = p.try_borrow_mut() {
+                *p = format!("{msg} @ {loc}");
+            }
+        });
     }));
 }
 
@@ -84,7 +89,7 @@ pub fn install_panic_hook() {
 pub fn guard<T>(f: impl FnOnce() -> T) -> Result<T, String> {
     match catch_unwind(AssertUnwindSafe(f)) {
         Ok(v) => Ok(v),
-        Err(_) => Err(LAST_PANIC.with(|p| p.borrow().clone())),
+        Err(_) => Err(LAST_PANIC.try_with(|p| p.borrow().clone()).unwrap_or_else(|_| "panic (message unavailable: thread-local storage already destroyed)".to_string())),
     }
 }
 
@@ -863,8 +868,13 @@ fn write_evidence(prop: &Prop, sh: &Shared, wall: f64, violations: usize) {
         "wall_s": wall,
         "violations": violations,
         "build_profile": if is_dbg_profile() { "dbg (narsese: opt-level 0, debug assertions on)" } else { "release (opt-level 2, overflow checks on, debug assertions off)" },
+        "environment_set": std::env::var("VERIF_ENV_SET").unwrap_or_default(),
     });
-    let dir = sh.root.join(if is_dbg_profile() { "evidence-dbg" } else { "evidence" });
+    // replica runs (VERIF_PROFILE=dbg | env) write next to the main evidence, never over it
+    let dir = match std::env::var("VERIF_PROFILE") {
+        Ok(p) if !p.is_empty() => sh.root.join(format!("evidence-{p}")),
+        _ => sh.root.join("evidence"),
+    };
     let _ = std::fs::create_dir_all(&dir);
     let _ = std::fs::write(dir.join(format!("{}.json", prop.id)), serde_json::to_string_pretty(&ev).unwrap());
 }
